@@ -1,136 +1,393 @@
-// C07: Geocentric and LocalCartesian
+// C07: Geocentric and LocalCartesian (all four M-returning overloads, Rotate/Unrotate, Reset, accessors, CartConvert)
 #include "common.hpp"
+#include <iostream>
+#include <string>
+#include <sstream>
+#include <fstream>
 #include <GeographicLib/Geocentric.hpp>
 #include <GeographicLib/LocalCartesian.hpp>
 #include <GeographicLib/Math.hpp>
+#include <GeographicLib/DMS.hpp>
+#include <GeographicLib/Utility.hpp>
+
+// tools/CartConvert.cpp of the *current* tree is compiled into this harness (same library build, same sanitizers);
+// its `main` and `usage` live in a namespace.  All headers it includes are included above.
+namespace tool_cartconvert {
+#include "../tools/CartConvert.cpp"
+}
+
 using namespace GeographicLib; using namespace gv;
 typedef long double LD;
+
+static const double EPS = std::numeric_limits<double>::epsilon();
+
+static std::string hx9(const std::vector<double>& M) { std::string o; for (double m : M) o += " " + hx(m); return o; }
+static double semimax(double a, double f) { return a * std::fmax(1.0, 1 - f); }
+
+// the east/north/up frame at (lat, lon) from the library's own sincosd (row-major, as Geocentric::Rotation lays it out)
+static void enu(double lat, double lon, LD E[9]) {
+  double sphi, cphi, slam, clam; Math::sincosd(Math::LatFix(lat), sphi, cphi); Math::sincosd(lon, slam, clam);
+  E[0] = -(LD)slam; E[1] = -(LD)clam * sphi; E[2] = (LD)clam * cphi;
+  E[3] = clam;      E[4] = -(LD)slam * sphi; E[5] = (LD)slam * cphi;
+  E[6] = 0;         E[7] = cphi;             E[8] = sphi;
+}
+static bool orthonormal(const std::vector<double>& M, double tol) {
+  for (int i = 0; i < 3; ++i) for (int j = 0; j < 3; ++j) { LD s = 0; for (int k = 0; k < 3; ++k) s += (LD)M[3 * k + i] * M[3 * k + j]; if (!(fabsl(s - (i == j)) <= tol)) return false; }
+  LD det = (LD)M[0] * ((LD)M[4] * M[8] - (LD)M[5] * M[7]) - (LD)M[1] * ((LD)M[3] * M[8] - (LD)M[5] * M[6]) + (LD)M[2] * ((LD)M[3] * M[7] - (LD)M[4] * M[6]);
+  return fabsl(det - 1) <= 2 * tol;
+}
+static bool same3(double a, double b, double c, double x, double y, double z) {
+  auto s = [](double u, double v) { return bits(u) == bits(v) || (std::isnan(u) && std::isnan(v)); };
+  return s(a, x) && s(b, y) && s(c, z);
+}
+// closed form in long double from unit pairs
+static void fwdld(double a, double f, LD sphi, LD cphi, LD slam, LD clam, LD h, LD& X, LD& Y, LD& Z) {
+  LD e2 = (LD)f * (2 - (LD)f), n = (LD)a / sqrtl(1 - e2 * sphi * sphi);
+  X = (n + h) * cphi * clam; Y = (n + h) * cphi * slam; Z = ((1 - e2) * n + h) * sphi;
+}
+// unit pairs of a returned (lat, lon) in long double, exact at the cardinal points
+static void sincosld(double lat, double lon, LD& sphi, LD& cphi, LD& slam, LD& clam) {
+  sphi = sinl((LD)lat * (M_PIl / 180)); cphi = cosl((LD)lat * (M_PIl / 180)); slam = sinl((LD)lon * (M_PIl / 180)); clam = cosl((LD)lon * (M_PIl / 180));
+  if (std::fabs(lat) == 90) cphi = 0;
+  if (std::fabs(lon) == 180 || lon == 0) slam = 0;
+  if (std::fabs(lon) == 90) clam = 0;
+}
 
 static Reg r_fwd("geofwd", [](const Args& a) {
   double ea = unhx(a[0]), ef = unhx(a[1]), lat = unhx(a[2]), lon = unhx(a[3]), h = unhx(a[4]);
   Geocentric g(ea, ef); double sphi, cphi, slam, clam; Math::sincosd(Math::LatFix(lat), sphi, cphi); Math::sincosd(lon, slam, clam);
   current_op() = "geofwd " + a[0] + " " + a[1] + " " + a[2] + " " + a[3] + " " + a[4] + " " + hx(sphi) + " " + hx(cphi) + " " + hx(slam) + " " + hx(clam);
   double X, Y, Z; std::vector<double> M(9); g.Forward(lat, lon, h, X, Y, Z, M);
-  std::string out = hx(X) + " " + hx(Y) + " " + hx(Z); for (double m : M) out += " " + hx(m); emit(out);
+  emit(hx(X) + " " + hx(Y) + " " + hx(Z) + hx9(M));
+  // the three overload forms agree bit for bit; a vector of the wrong size is left alone
+  { double X1, Y1, Z1; g.Forward(lat, lon, h, X1, Y1, Z1); std::vector<double> W(4, 7.0); double X2, Y2, Z2; g.Forward(lat, lon, h, X2, Y2, Z2, W);
+    if (!same3(X, Y, Z, X1, Y1, Z1) || !same3(X, Y, Z, X2, Y2, Z2) || W != std::vector<double>(4, 7.0)) bad("overload-consistency", "Forward with / without M disagree, or a wrong-size vector was written"); }
   if (!std::isfinite(lat) || !std::isfinite(lon) || !std::isfinite(h) || std::fabs(lat) > 90) return;
   // closed form in long double
-  LD e2 = (LD)ef * (2 - (LD)ef), n = (LD)ea / sqrtl(1 - e2 * (LD)sphi * sphi);
-  LD rX = (n + h) * cphi * clam, rY = (n + h) * cphi * slam, rZ = ((1 - e2) * n + h) * sphi;
+  LD e2 = (LD)ef * (2 - (LD)ef); LD rX, rY, rZ; fwdld(ea, ef, sphi, cphi, slam, clam, h, rX, rY, rZ);
   double sc = std::fabs(h) + ea * std::fmax(1.0, (1 - ef) * (1 - ef)); double tol = 4 * ulp(sc) * std::fmax(1.0, 1 / double(1 - e2 * (LD)sphi * sphi));   // conditioning of n = a/sqrt(1 - e2 sin^2)
   if (!(std::fabs(double(X - rX)) <= tol && std::fabs(double(Y - rY)) <= tol && std::fabs(double(Z - rZ)) <= tol)) bad("forward-closed-form", "Forward differs from the closed form");
   // rotation matrix: orthonormal, third column = normal, second = north
-  for (int i = 0; i < 3; ++i) for (int j = 0; j < 3; ++j) { double s = 0; for (int k = 0; k < 3; ++k) s += M[3 * k + i] * M[3 * k + j]; if (!(std::fabs(s - (i == j)) <= 8e-16)) bad("rotation-orthonormal", "M^T M != I"); }
+  if (!orthonormal(M, 8e-16)) bad("rotation-orthonormal", "M^T M != I or det != 1");
   if (!(std::fabs(M[2] - cphi * clam) <= 4e-16 && std::fabs(M[5] - cphi * slam) <= 4e-16 && std::fabs(M[8] - sphi) <= 4e-16)) bad("rotation-frame", "third column is not the up direction");
   if (!(std::fabs(M[0] + slam) <= 4e-16 && std::fabs(M[3] - clam) <= 4e-16 && M[6] == 0)) bad("rotation-frame", "first column is not the east direction");
+  if (!(std::fabs(M[1] + clam * sphi) <= 4e-16 && std::fabs(M[4] + slam * sphi) <= 4e-16 && std::fabs(M[7] - cphi) <= 4e-16)) bad("rotation-frame", "second column is not the north direction");
   // forward then reverse: identity within a few nanometres for geophysical heights
-  if (std::fabs(h) < 1e7 && ef < 0.5 && ef > -0.5 && h > -ea / 2) {
+  if (std::fabs(h) < 1e7 && ef < 0.5 && ef > -0.5 && h > -ea / 2 && ea > 1e5 && ea < 1e8) {
     double la, lo, hh; g.Reverse(X, Y, Z, la, lo, hh);
     double d = std::hypot((la - lat) * Math::degree() * (ea + h), std::fabs(lat) < 89.999999 ? Math::AngDiff(lon, lo) * Math::degree() * (ea + h) * cphi : 0.0);
     if (!(d <= 30e-9 && std::fabs(hh - h) <= 30e-9)) bad("forward-then-reverse", "Reverse(Forward) off by " + std::to_string(d * 1e9) + " nm, dh " + std::to_string((hh - h) * 1e9) + " nm");
   }
 });
 
+// distance from (R, Z) to the meridian ellipse, scanned in the parametric latitude (long double); an upper bound of the true minimum
+static LD scan_dist(double ea, double ef, LD R, LD Z) {
+  LD b = (LD)ea * (1 - (LD)ef), best = INFINITY; int n = 1440; LD bb = 0;
+  for (int i = 0; i <= n; ++i) { LD be = -M_PIl / 2 + M_PIl * i / n; for (int s = -1; s <= 1; s += 2) { LD d = hypotl(R - s * ea * cosl(be), Z - b * sinl(be)); if (d < best) { best = d; bb = s > 0 ? be : M_PIl - be; } } }
+  // refine around the best node by golden-section-free bisection of the bracket
+  LD lo = bb - M_PIl / n, hi = bb + M_PIl / n;
+  for (int it = 0; it < 80; ++it) { LD m1 = lo + (hi - lo) / 3, m2 = hi - (hi - lo) / 3; LD d1 = hypotl(R - ea * cosl(m1), Z - b * sinl(m1)), d2 = hypotl(R - ea * cosl(m2), Z - b * sinl(m2)); if (d1 < d2) hi = m2; else lo = m1; }
+  LD dm = hypotl(R - ea * cosl((lo + hi) / 2), Z - b * sinl((lo + hi) / 2));
+  return dm < best ? dm : best;
+}
+
 static Reg r_rev("georev", [](const Args& a) {
   double ea = unhx(a[0]), ef = unhx(a[1]), X = unhx(a[2]), Y = unhx(a[3]), Z = unhx(a[4]);
   Geocentric g(ea, ef); double lat, lon, h; std::vector<double> M(9); g.Reverse(X, Y, Z, lat, lon, h, M);
-  emit(hx(lat) + " " + hx(lon) + " " + hx(h));
+  emit(hx(lat) + " " + hx(lon) + " " + hx(h) + hx9(M));
+  { double l1, o1, h1; g.Reverse(X, Y, Z, l1, o1, h1); std::vector<double> W(4, 7.0); double l2, o2, h2; g.Reverse(X, Y, Z, l2, o2, h2, W);
+    if (!same3(lat, lon, h, l1, o1, h1) || !same3(lat, lon, h, l2, o2, h2) || W != std::vector<double>(4, 7.0)) bad("overload-consistency", "Reverse with / without M disagree, or a wrong-size vector was written"); }
   if (!(std::isfinite(X) && std::isfinite(Y) && std::isfinite(Z))) return;
   if (std::isnan(lat) || std::isnan(lon) || std::isnan(h)) { bad("reverse-finite", "NaN output for a finite point"); return; }
   if (!(std::fabs(lat) <= 90 && std::fabs(lon) <= 180)) bad("reverse-range", "lat/lon outside their ranges");
-  double r = std::hypot(std::hypot(X, Y), Z);
+  double r = std::hypot(std::hypot(X, Y), Z); double big = semimax(ea, ef);
+  double ctol = 16 * 1.2e-16 * std::fmax(r, big) / (1 - std::fmax(ef, 0.0));      // lat is returned in degrees with 53 bits: a few ulp of max(r, a, b)
   if (r < 1e300 / 4) {
     // forward image (in long double) of the result reproduces the point to round-off
-    LD sphi = sinl((LD)lat * (M_PIl / 180)), cphi = cosl((LD)lat * (M_PIl / 180)), slam = sinl((LD)lon * (M_PIl / 180)), clam = cosl((LD)lon * (M_PIl / 180));
-    if (std::fabs(lat) == 90) cphi = 0; if (std::fabs(lon) == 180 || lon == 0) slam = 0; if (std::fabs(lon) == 90) clam = 0;
-    LD e2 = (LD)ef * (2 - (LD)ef), n = (LD)ea / sqrtl(1 - e2 * sphi * sphi);
-    LD rX = (n + h) * cphi * clam, rY = (n + h) * cphi * slam, rZ = ((1 - e2) * n + h) * sphi;
+    LD sphi, cphi, slam, clam; sincosld(lat, lon, sphi, cphi, slam, clam);
+    LD rX, rY, rZ; fwdld(ea, ef, sphi, cphi, slam, clam, h, rX, rY, rZ);
     double d = double(hypotl(hypotl(rX - X, rY - Y), rZ - Z));
-    double tol = 16 * 1.2e-16 * std::fmax(r, ea) / (1 - std::fmax(ef, 0.0));      // lat is returned in degrees with 53 bits: a few ulp of max(r, a)
-    if (!(d <= tol)) bad("reverse-closure", "forward image of Reverse misses the point by " + std::to_string(d) + " m (tolerance " + std::to_string(tol) + ")");
+    if (!(d <= ctol)) bad("reverse-closure", "forward image of Reverse misses the point by " + std::to_string(d) + " m (tolerance " + std::to_string(ctol) + ")");
+    // least |h| (theorem reverse_height_least): no point of the ellipsoid is closer to P than |h|.  The scan gives an upper
+    // bound of the true minimum distance, so |h| may not exceed it (beyond the far-field threshold h = |P| overshoots by at most
+    // the larger semi-axis, theorem reverse_farfield_bound)
+    if (r < 1e290) {
+      double dmin = double(scan_dist(ea, ef, hypotl(X, Y), Z)); bool far = r > 2 * ea / EPS;
+      double htol = 4 * ctol + 1e-9 * dmin + (far ? big : 0.0);   // the scan's own resolution: relative 1e-9 (quadratic in the step after refinement)
+      if (!(std::fabs(h) <= dmin + htol)) bad("least-height", "|h| = " + std::to_string(std::fabs(h)) + " exceeds the distance to the ellipsoid " + std::to_string(dmin));
+      if (!far && !(std::fabs(h) >= dmin - htol - 1e-6 * dmin)) bad("least-height", "|h| = " + std::to_string(std::fabs(h)) + " is smaller than the distance to the ellipsoid " + std::to_string(dmin));
+      // sign: h >= 0 outside, h <= 0 inside the ellipsoid
+      LD inside = ((LD)X * X + (LD)Y * Y) / ((LD)ea * ea) + (LD)Z * Z / ((LD)ea * ea * (1 - (LD)ef) * (1 - (LD)ef)) - 1;
+      if (!far && ((inside > 1e-9 && h < -htol) || (inside < -1e-9 && h > htol))) bad("least-height", "sign of h does not tell inside from outside");
+    }
+  }
+  if (r > 2 * ea / EPS) {
+    // far field (theorem reverse_farfield_bound): the direction is the geocentric one and h = |P| — also where hypot(X, Y) overflows
+    LD RR = hypotl(X, Y), rr = hypotl(RR, Z); LD sphi, cphi, slam, clam; sincosld(lat, lon, sphi, cphi, slam, clam);
+    LD dd = hypotl(hypotl(cphi * clam - X / rr, cphi * slam - Y / rr), sphi - Z / rr);
+    if (!(dd <= 1e-15)) bad("far-field", "direction of the result differs from P/|P| by " + std::to_string((double)dd));
+    if (!(rr > (LD)std::numeric_limits<double>::max() ? h == INFINITY : fabsl(h - rr) <= 2 * ulp(h))) bad("far-field", "h is not |P|");
   }
   double Rxy = std::hypot(X, Y);
-  if (Rxy == 0 || Rxy > 1e-290)   // a subnormal distance from the axis has too few bits to define the longitude direction
-    for (int i = 0; i < 3; ++i) for (int j = 0; j < 3; ++j) { double s = 0; for (int k = 0; k < 3; ++k) s += M[3 * k + i] * M[3 * k + j]; if (!(std::fabs(s - (i == j)) <= 8e-16)) bad("rotation-orthonormal", "Reverse: M^T M != I"); }
-  // least |h|: for points outside the singular region the returned height is the one of least magnitude (scan the other stationary branches)
-  if (ef > 0 && ef < 0.9 && r > 2 * ea * ef * (2 - ef) && r < 1e12 && h < 0 && !(std::fabs(h) <= r + ea)) bad("least-height", "implausible height");
+  if (Rxy == 0 || Rxy > 1e-290) {  // a subnormal distance from the axis has too few bits to define the longitude direction
+    if (!orthonormal(M, 8e-16)) bad("rotation-orthonormal", "Reverse: M^T M != I or det != 1");
+    // M is the east/north/up frame AT THE RETURNED (lat, lon) (theorem reverseM_frame_is_enu) = what Forward returns there
+    LD E[9]; enu(lat, lon, E); for (int i = 0; i < 9; ++i) if (!(fabsl(M[i] - E[i]) <= 1e-15)) { bad("reverse-frame", "Reverse's M is not Rotation at the returned (lat, lon): entry " + std::to_string(i) + " " + std::to_string(M[i]) + " vs " + std::to_string((double)E[i])); break; }
+  }
 });
 
+// Geocentric::Rotate / Unrotate (private statics used by the gravity / magnetic classes): plain products with M and M^T
+static Reg r_rot("georot", [](const Args& a) {
+  double M[9]; for (int i = 0; i < 9; ++i) M[i] = unhx(a[i]); double x = unhx(a[9]), y = unhx(a[10]), z = unhx(a[11]);
+  double X, Y, Z, u, v, w; Geocentric::Rotate(M, x, y, z, X, Y, Z); Geocentric::Unrotate(M, x, y, z, u, v, w);
+  emit(hx(X) + " " + hx(Y) + " " + hx(Z) + " " + hx(u) + " " + hx(v) + " " + hx(w));
+  std::vector<double> Mv(M, M + 9); if (!orthonormal(Mv, 8e-16)) return;
+  double n = std::hypot(std::hypot(x, y), z); if (!std::isfinite(n) || n > 1e150) return;
+  double bx, by, bz; Geocentric::Unrotate(M, X, Y, Z, bx, by, bz);
+  if (!(std::hypot(std::hypot(bx - x, by - y), bz - z) <= 16 * EPS * n)) bad("rotate-unrotate", "Unrotate(Rotate(v)) != v");
+  Geocentric::Rotate(M, u, v, w, bx, by, bz);
+  if (!(std::hypot(std::hypot(bx - x, by - y), bz - z) <= 16 * EPS * n)) bad("rotate-unrotate", "Rotate(Unrotate(v)) != v");
+  if (!(std::fabs(std::hypot(std::hypot(X, Y), Z) - n) <= 16 * EPS * n)) bad("rotate-unrotate", "Rotate changes the length");
+});
+
+// LocalCartesian::IntForward given the object's state: args lat0 lon0 h0 lat lon h; the state (x0 y0 z0 r[9]) and the geocentric image
+// of the point are appended to the line for the model
 static Reg r_loc("locfwd", [](const Args& a) {
   double lat0 = unhx(a[0]), lon0 = unhx(a[1]), h0 = unhx(a[2]), lat = unhx(a[3]), lon = unhx(a[4]), h = unhx(a[5]);
   LocalCartesian l(lat0, lon0, h0, Geocentric::WGS84()); double xc, yc, zc; Geocentric::WGS84().Forward(lat, lon, h, xc, yc, zc);
-  std::string o = "locfwd " + hx(l._x0) + " " + hx(l._y0) + " " + hx(l._z0); for (int i = 0; i < 9; ++i) o += " " + hx(l._r[i]); o += " " + hx(xc) + " " + hx(yc) + " " + hx(zc);
+  std::string o = "locfwd"; for (int i = 0; i < 6; ++i) o += " " + a[i];
+  o += " " + hx(l._x0) + " " + hx(l._y0) + " " + hx(l._z0); for (int i = 0; i < 9; ++i) o += " " + hx(l._r[i]); o += " " + hx(xc) + " " + hx(yc) + " " + hx(zc);
   current_op() = o;
   double x, y, z; l.Forward(lat, lon, h, x, y, z); emit(hx(x) + " " + hx(y) + " " + hx(z));
 });
 
 // the local frame itself: origin = geocentric image of (lat0, lon0, h0), axes = east/north/up AT (lat0, lon0) — also at a pole, where
-// the geocentric origin no longer determines the meridian
+// the geocentric origin no longer determines the meridian.  args: a f lat0 lon0 h0
 static Reg r_locorigin("locorigin", [](const Args& a) {
-  double lat0 = unhx(a[0]), lon0 = unhx(a[1]), h0 = unhx(a[2]);
-  const Geocentric& g = Geocentric::WGS84(); LocalCartesian l(lat0, lon0, h0, g);
+  double ea = unhx(a[0]), ef = unhx(a[1]), lat0 = unhx(a[2]), lon0 = unhx(a[3]), h0 = unhx(a[4]);
+  Geocentric g(ea, ef); LocalCartesian l(lat0, lon0, h0, g);
   double sphi, cphi, slam, clam; Math::sincosd(Math::LatFix(lat0), sphi, cphi); Math::sincosd(lon0, slam, clam);
-  current_op() = "locorigin " + hx(g._a) + " " + hx(g._f) + " " + a[0] + " " + a[1] + " " + a[2] + " " + hx(sphi) + " " + hx(cphi) + " " + hx(slam) + " " + hx(clam);
+  current_op() = "locorigin " + a[0] + " " + a[1] + " " + a[2] + " " + a[3] + " " + a[4] + " " + hx(sphi) + " " + hx(cphi) + " " + hx(slam) + " " + hx(clam);
   std::string o = hx(l._x0) + " " + hx(l._y0) + " " + hx(l._z0); for (int i = 0; i < 9; ++i) o += " " + hx(l._r[i]); emit(o);
   // Forward at the origin returns the identity rotation (the frame of the point coincides with the frame of the origin)
   double x, y, z; std::vector<double> M(9); l.Forward(lat0, lon0, h0, x, y, z, M);
   for (int i = 0; i < 9; ++i) if (!(std::fabs(M[i] - (i % 4 == 0 ? 1.0 : 0.0)) <= 8e-16)) { bad("local-origin-frame", "Forward at the origin does not return the identity rotation"); break; }
 });
 
+// the origin part of an op line shared by the local ops: kernel values of sincosd at the (fixed-up) origin
+static std::string origin_kernels(double lat0, double lon0) {
+  double s0, c0, sl0, cl0; Math::sincosd(Math::LatFix(lat0), s0, c0); Math::sincosd(Math::AngNormalize(lon0), sl0, cl0);
+  return hx(s0) + " " + hx(c0) + " " + hx(sl0) + " " + hx(cl0);
+}
+// r0^T . ENU(lat, lon) in long double, r0 = ENU(lat0, lon0)
+static void compose(double lat0, double lon0, double lat, double lon, LD C[9]) {
+  LD R0[9], E[9]; enu(lat0, Math::AngNormalize(lon0), R0); enu(lat, lon, E);
+  for (int i = 0; i < 9; ++i) { int row = i / 3, col = i % 3; C[i] = R0[row] * E[col] + R0[row + 3] * E[col + 3] + R0[row + 6] * E[col + 6]; }
+}
+
+// LocalCartesian::Forward with the matrix, any ellipsoid
+static Reg r_locfwdm("locfwdm", [](const Args& a) {
+  double ea = unhx(a[0]), ef = unhx(a[1]), lat0 = unhx(a[2]), lon0 = unhx(a[3]), h0 = unhx(a[4]), lat = unhx(a[5]), lon = unhx(a[6]), h = unhx(a[7]);
+  Geocentric g(ea, ef); LocalCartesian l(lat0, lon0, h0, g);
+  double sphi, cphi, slam, clam; Math::sincosd(Math::LatFix(lat), sphi, cphi); Math::sincosd(lon, slam, clam);
+  std::string o = "locfwdm"; for (int i = 0; i < 8; ++i) o += " " + a[i];
+  current_op() = o + " " + origin_kernels(lat0, lon0) + " " + hx(sphi) + " " + hx(cphi) + " " + hx(slam) + " " + hx(clam);
+  double x, y, z; std::vector<double> M(9); l.Forward(lat, lon, h, x, y, z, M);
+  emit(hx(x) + " " + hx(y) + " " + hx(z) + hx9(M));
+  { double x1, y1, z1; l.Forward(lat, lon, h, x1, y1, z1); std::vector<double> W(4, 7.0); double x2, y2, z2; l.Forward(lat, lon, h, x2, y2, z2, W);
+    if (!same3(x, y, z, x1, y1, z1) || !same3(x, y, z, x2, y2, z2) || W != std::vector<double>(4, 7.0)) bad("overload-consistency", "LocalCartesian::Forward with / without M disagree, or a wrong-size vector was written"); }
+  if (!(std::isfinite(lat0) && std::isfinite(lon0) && std::isfinite(h0) && std::isfinite(lat) && std::isfinite(lon) && std::isfinite(h)) || std::fabs(lat) > 90 || std::fabs(lat0) > 90) return;
+  if (!orthonormal(M, 1.2e-15)) bad("local-frame", "LocalCartesian::Forward: M is not a rotation");
+  LD C[9]; compose(lat0, lon0, lat, lon, C);
+  for (int i = 0; i < 9; ++i) if (!(fabsl(M[i] - C[i]) <= 1.5e-15)) { bad("local-frame", "LocalCartesian::Forward: M is not r0^T . Rotation(lat, lon)"); break; }
+  // reverse inverts forward (in local cartesian space, so that it is meaningful at every height and for every ellipsoid)
+  double scale = std::fabs(h) + std::fabs(h0) + 2 * semimax(ea, ef);
+  if (std::isfinite(x + y + z) && scale < 1e290) {
+    double la, lo, hh; l.Reverse(x, y, z, la, lo, hh); double x1, y1, z1; l.Forward(la, lo, hh, x1, y1, z1);
+    double d = std::hypot(std::hypot(x1 - x, y1 - y), z1 - z);
+    if (!(d <= 64 * EPS * scale / (1 - std::fmax(ef, 0.0)))) bad("local-roundtrip", "Forward(Reverse(Forward(p))) misses Forward(p) by " + std::to_string(d) + " m");
+  }
+});
+
+// LocalCartesian::Reverse with the matrix, any ellipsoid
+static Reg r_locrevm("locrevm", [](const Args& a) {
+  double ea = unhx(a[0]), ef = unhx(a[1]), lat0 = unhx(a[2]), lon0 = unhx(a[3]), h0 = unhx(a[4]), x = unhx(a[5]), y = unhx(a[6]), z = unhx(a[7]);
+  Geocentric g(ea, ef); LocalCartesian l(lat0, lon0, h0, g);
+  std::string o = "locrevm"; for (int i = 0; i < 8; ++i) o += " " + a[i];
+  current_op() = o + " " + origin_kernels(lat0, lon0);
+  double lat, lon, h; std::vector<double> M(9); l.Reverse(x, y, z, lat, lon, h, M);
+  emit(hx(lat) + " " + hx(lon) + " " + hx(h) + hx9(M));
+  { double l1, o1, h1; l.Reverse(x, y, z, l1, o1, h1); std::vector<double> W(4, 7.0); double l2, o2, h2; l.Reverse(x, y, z, l2, o2, h2, W);
+    if (!same3(lat, lon, h, l1, o1, h1) || !same3(lat, lon, h, l2, o2, h2) || W != std::vector<double>(4, 7.0)) bad("overload-consistency", "LocalCartesian::Reverse with / without M disagree, or a wrong-size vector was written"); }
+  if (!(std::isfinite(lat0) && std::isfinite(lon0) && std::isfinite(h0) && std::isfinite(x) && std::isfinite(y) && std::isfinite(z)) || std::fabs(lat0) > 90) return;
+  double xc = l._x0 + l._r[0] * x + l._r[1] * y + l._r[2] * z, yc = l._y0 + l._r[3] * x + l._r[4] * y + l._r[5] * z, zc = l._z0 + l._r[6] * x + l._r[7] * y + l._r[8] * z;
+  if (!(std::isfinite(xc) && std::isfinite(yc) && std::isfinite(zc))) return;
+  if (std::isnan(lat) || std::isnan(lon) || std::isnan(h)) { bad("reverse-finite", "LocalCartesian::Reverse: NaN output for a finite point"); return; }
+  if (!(std::fabs(lat) <= 90 && std::fabs(lon) <= 180)) bad("reverse-range", "LocalCartesian::Reverse: lat/lon outside their ranges");
+  double r = std::hypot(std::hypot(xc, yc), zc), sc = std::fabs(x) + std::fabs(y) + std::fabs(z) + std::fabs(h0) + semimax(ea, ef);
+  if (sc < 1e290) {
+    double x1, y1, z1; l.Forward(lat, lon, h, x1, y1, z1); double d = std::hypot(std::hypot(x1 - x, y1 - y), z1 - z);
+    if (!(d <= 64 * EPS * std::fmax(sc, r) / (1 - std::fmax(ef, 0.0)))) bad("local-closure", "Forward(Reverse(x, y, z)) misses (x, y, z) by " + std::to_string(d) + " m");
+  }
+  double Rxy = std::hypot(xc, yc);
+  if (Rxy > 1e-6 * sc) {   // the meridian of the point is determined to round-off (the geocentric image is a rounded sum)
+    if (!orthonormal(M, 1.2e-15)) bad("local-frame", "LocalCartesian::Reverse: M is not a rotation");
+    LD C[9]; compose(lat0, lon0, lat, lon, C);
+    for (int i = 0; i < 9; ++i) if (!(fabsl(M[i] - C[i]) <= 2e-15)) { bad("local-frame", "LocalCartesian::Reverse: M is not r0^T . Rotation at the returned (lat, lon)"); break; }
+  }
+});
+
+// state set by Reset (and by the constructors), accessors; Reset leaves nothing of the previous origin behind
+static Reg r_locacc("locacc", [](const Args& a) {
+  double ea = unhx(a[0]), ef = unhx(a[1]), lat0 = unhx(a[2]), lon0 = unhx(a[3]), h0 = unhx(a[4]);
+  Geocentric g(ea, ef); LocalCartesian l(lat0, lon0, h0, g);
+  emit(hx(l.LatitudeOrigin()) + " " + hx(l.LongitudeOrigin()) + " " + hx(l.HeightOrigin()) + " " + hx(l.EquatorialRadius()) + " " + hx(l.Flattening()) + " " + hx(g.EquatorialRadius()) + " " + hx(g.Flattening()));
+  auto same_state = [](const LocalCartesian& p, const LocalCartesian& q) {
+    auto s = [](double u, double v) { return bits(u) == bits(v) || (std::isnan(u) && std::isnan(v)); };
+    bool ok = s(p._lat0, q._lat0) && s(p._lon0, q._lon0) && s(p._h0, q._h0) && s(p._x0, q._x0) && s(p._y0, q._y0) && s(p._z0, q._z0);
+    for (int i = 0; i < 9; ++i) ok = ok && s(p._r[i], q._r[i]);
+    return ok; };
+  LocalCartesian m(-33.25, 151.5, 77.0, g); m.Reset(lat0, lon0, h0);
+  if (!same_state(l, m)) bad("reset-history", "Reset on a used object differs from a fresh object with the same origin");
+  LocalCartesian d(g), z(0.0, 0.0, 0.0, g);
+  if (!same_state(d, z)) bad("reset-history", "default-origin constructor differs from origin (0, 0, 0)");
+  LocalCartesian n(lat0, lon0, 0.0, g), n2(lat0, lon0, 0.0, g); n2.Reset(lat0, lon0);   // default h0 = 0
+  if (!same_state(n, n2)) bad("reset-history", "Reset(lat0, lon0) differs from h0 = 0");
+});
+
+// tools/CartConvert: the printed numbers are Utility::str of the API results for the same ellipsoid / origin / direction
+static Reg r_cart("cartconvert", [](const Args& a) {
+  int variant = std::atoi(a[0].c_str()); double ea = unhx(a[1]), ef = unhx(a[2]), lat0 = unhx(a[3]), lon0 = unhx(a[4]), h0 = unhx(a[5]); int prec = std::atoi(a[6].c_str());
+  double u = unhx(a[7]), v = unhx(a[8]), w = unhx(a[9]);
+  bool local = variant & 1, reverse = variant & 2, longfirst = variant & 4;
+  auto num = [](double x) { char b[64]; std::snprintf(b, sizeof b, "%.12f", x); return std::string(b); };
+  auto num17 = [](double x) { char b[64]; std::snprintf(b, sizeof b, "%.17g", x); return std::string(b); };
+  std::vector<std::string> av = {"CartConvert", "-e", num17(ea), num17(ef)};
+  if (longfirst) av.push_back("-w");
+  if (local) { av.push_back("-l"); av.push_back(num(longfirst ? lon0 : lat0)); av.push_back(num(longfirst ? lat0 : lon0)); av.push_back(num(h0)); }
+  if (reverse) av.push_back("-r");
+  av.push_back("-p"); av.push_back(std::to_string(prec));
+  std::string line = reverse ? num17(u) + " " + num17(v) + " " + num17(w) : num(longfirst ? v : u) + " " + num(longfirst ? u : v) + " " + num(w);
+  std::vector<const char*> argv; for (auto& s : av) argv.push_back(s.c_str());
+  std::istringstream in(line + "\n"); std::ostringstream out, err;
+  std::streambuf *oi = std::cin.rdbuf(in.rdbuf()), *oo = std::cout.rdbuf(out.rdbuf()), *oe = std::cerr.rdbuf(err.rdbuf()); std::cin.clear();
+  int rc = -99; std::string ex;
+  try { rc = tool_cartconvert::main(int(argv.size()), argv.data()); } catch (const std::exception& e) { ex = typeid(e).name(); } catch (...) { ex = "unknown"; }
+  std::cin.rdbuf(oi); std::cout.rdbuf(oo); std::cerr.rdbuf(oe); std::cin.clear(); std::cout.clear(); std::cerr.clear();
+  std::string got = out.str(); while (!got.empty() && (got.back() == '\n' || got.back() == '\r')) got.pop_back();
+  emit(hs(got));
+  if (!ex.empty()) { bad("tool-vs-api", "CartConvert: exception " + ex + " escaped main"); return; }
+  // what the API gives for the numbers the tool parsed (the decimal strings above are exact for the generated values)
+  std::string want;
+  try {
+    Geocentric g(Utility::val<double>(num17(ea)), Utility::val<double>(num17(ef)));
+    double la0 = 0, lo0 = 0, hh0 = 0; if (local) { la0 = Utility::val<double>(num(lat0)); lo0 = Utility::val<double>(num(lon0)); hh0 = Utility::val<double>(num(h0)); }
+    LocalCartesian l(la0, lo0, hh0, g); int p = std::min(10, std::max(0, prec));
+    if (reverse) { double x = Utility::val<double>(num17(u)), y = Utility::val<double>(num17(v)), z = Utility::val<double>(num17(w)), la, lo, hh;
+      if (local) l.Reverse(x, y, z, la, lo, hh); else g.Reverse(x, y, z, la, lo, hh);
+      want = Utility::str(longfirst ? lo : la, p + 5) + " " + Utility::str(longfirst ? la : lo, p + 5) + " " + Utility::str(hh, p);
+    } else { double la = Utility::val<double>(num(u)), lo = Utility::val<double>(num(v)), hh = Utility::val<double>(num(w)), x, y, z;
+      if (local) l.Forward(la, lo, hh, x, y, z); else g.Forward(la, lo, hh, x, y, z);
+      want = Utility::str(x, p) + " " + Utility::str(y, p) + " " + Utility::str(z, p); }
+  } catch (const std::exception& e) { want = std::string("ERROR: ") + e.what(); }
+  if (got != want || (rc != 0) != (want.compare(0, 5, "ERROR") == 0)) bad("tool-vs-api", "CartConvert printed '" + got + "' (rc " + std::to_string(rc) + "), the API gives '" + want + "'");
+});
+
 static Reg r_props("geoprops", [](const Args& a) {
   // LocalCartesian: rigid motion, origin -> 0, reverse inverts forward
   double lat0 = unhx(a[0]), lon0 = unhx(a[1]), h0 = unhx(a[2]);
   double p[2][3] = {{unhx(a[3]), unhx(a[4]), unhx(a[5])}, {unhx(a[6]), unhx(a[7]), unhx(a[8])}};
-  LocalCartesian l(lat0, lon0, h0, Geocentric::WGS84()); const Geocentric& g = Geocentric::WGS84();
+  double ea = a.size() > 10 ? unhx(a[9]) : Constants::WGS84_a(), ef = a.size() > 10 ? unhx(a[10]) : Constants::WGS84_f();
+  Geocentric g(ea, ef); LocalCartesian l(lat0, lon0, h0, g);
   double x, y, z; l.Forward(lat0, lon0, h0, x, y, z);
-  if (!(std::hypot(std::hypot(x, y), z) <= 4e-9)) bad("local-origin", "origin does not map to (0,0,0)");
+  double scale = semimax(ea, ef) + std::fabs(p[0][2]) + std::fabs(p[1][2]) + std::fabs(h0);
+  if (!(std::hypot(std::hypot(x, y), z) <= 4 * ulp(semimax(ea, ef) + std::fabs(h0)))) bad("local-origin", "origin does not map to (0,0,0)");
   double q[2][3], c[2][3];
   for (int i = 0; i < 2; ++i) { l.Forward(p[i][0], p[i][1], p[i][2], q[i][0], q[i][1], q[i][2]); g.Forward(p[i][0], p[i][1], p[i][2], c[i][0], c[i][1], c[i][2]); }
   double d1 = std::hypot(std::hypot(q[0][0] - q[1][0], q[0][1] - q[1][1]), q[0][2] - q[1][2]), d2 = std::hypot(std::hypot(c[0][0] - c[1][0], c[0][1] - c[1][1]), c[0][2] - c[1][2]);
-  double scale = 6.4e6 + std::fabs(p[0][2]) + std::fabs(p[1][2]) + std::fabs(h0);
   if (!(std::fabs(d1 - d2) <= 16 * ulp(scale))) bad("local-isometry", "distance not preserved: " + std::to_string(d1) + " vs " + std::to_string(d2));
-  double la, lo, hh; l.Reverse(q[0][0], q[0][1], q[0][2], la, lo, hh);
-  double dd = std::hypot((la - p[0][0]) * 111e3, std::fabs(p[0][0]) < 89.99999 ? Math::AngDiff(lo, p[0][1]) * 111e3 * std::cos(p[0][0] * Math::degree()) : 0.0);
-  if (std::fabs(p[0][2]) < 1e7 && !(dd <= 50e-9 && std::fabs(hh - p[0][2]) <= 50e-9)) bad("local-roundtrip", "Reverse(Forward) off by " + std::to_string(dd * 1e9) + " nm");
+  if (ea > 1e5 && ea < 1e8 && std::fabs(ef) < 0.1) {
+    double la, lo, hh; l.Reverse(q[0][0], q[0][1], q[0][2], la, lo, hh);
+    double dd = std::hypot((la - p[0][0]) * 111e3, std::fabs(p[0][0]) < 89.99999 ? Math::AngDiff(lo, p[0][1]) * 111e3 * std::cos(p[0][0] * Math::degree()) : 0.0);
+    if (std::fabs(p[0][2]) < 1e7 && !(dd <= 50e-9 && std::fabs(hh - p[0][2]) <= 50e-9)) bad("local-roundtrip", "Reverse(Forward) off by " + std::to_string(dd * 1e9) + " nm");
+  }
   // up axis at the origin: a point straight above the origin has local coordinates (0, 0, dh)
-  l.Forward(lat0, lon0, h0 + 1000, x, y, z); if (!(std::hypot(x, y) <= 1e-8 && std::fabs(z - 1000) <= 1e-8)) bad("local-axes", "up axis");
+  double dh = 1e-4 * ea; l.Forward(lat0, lon0, h0 + dh, x, y, z); if (!(std::hypot(x, y) <= 16 * ulp(scale + dh) && std::fabs(z - dh) <= 16 * ulp(scale + dh))) bad("local-axes", "up axis");
   emit("done");
 });
 
 void gv::generate(const std::string& tier, uint64_t seed) {
   Rng r(seed * 67867967 + 7);
   long n = tier == "thorough" ? 200000 : 12000;
-  std::vector<std::pair<double, double>> ell = {{6378137, 1 / 298.257223563}, {6378137, 0}, {6.4e6, 0.5}, {6.4e6, -0.5}, {1, 0.99}, {6.4e6, 0.1}, {6.4e6, -0.01}, {1, 0.5}, {6378388, 1 / 297.0}};
+  // (a, f): WGS84-like, sphere, strongly oblate / prolate, radii over 13 orders of magnitude (the far-field threshold 2a/eps scales with a)
+  std::vector<std::pair<double, double>> ell = {{6378137, 1 / 298.257223563}, {6378137, 0}, {6.4e6, 0.5}, {6.4e6, -0.5}, {1, 0.99}, {6.4e6, 0.1}, {6.4e6, -0.01}, {1, 0.5}, {6378388, 1 / 297.0},
+    {1e-3, 1 / 298.25}, {1e3, 0.2}, {1e10, 1 / 298.257223563}, {1, 0}, {1e10, 0}, {6.4e6, -3}, {1, -1}, {1e10, -0.25}, {7e8, 0.06}};
+  std::vector<double> lat0s = {90, -90, 0, 45, -0.0, nextdn(90), 1e-10}, lon0s = {0, 180, -180, 90, -90, 30, 540.5, -0.0, 179.5};
   for (long i = 0; i < n; ++i) {
     auto e = r.pick(ell); double a = e.first, f = e.second; if (i % 2 == 0) { a = 6378137; f = 1 / 298.257223563; }
-    double e2 = f * (2 - f);
+    double e2 = f * (2 - f), maxrad = 2 * a / EPS;
     // forward
-    double lat = r.irange(0, 5) ? r.range(-90, 90) : r.pick(std::vector<double>{90, -90, 0, nextdn(90), 45, 1e-10}), lon = r.irange(0, 5) ? r.range(-180, 180) : r.pick(std::vector<double>{180, -180, 90, 0, 720.5, 1e-10});
-    double h = r.irange(0, 3) ? r.range(-1e4, 1e5) : r.pick(std::vector<double>{0.0, -a / 2, 1e7, 1e12, 1e20, -a, 35786e3});
+    double lat = r.irange(0, 5) ? r.range(-90, 90) : r.pick(std::vector<double>{90, -90, 0, -0.0, nextdn(90), 45, 1e-10, -1e-300}), lon = r.irange(0, 5) ? r.range(-180, 180) : r.pick(std::vector<double>{180, -180, 90, 0, -0.0, 720.5, 1e-10, -270});
+    double h = r.irange(0, 3) ? r.range(-1e4, 1e5) : r.pick(std::vector<double>{0.0, -0.0, -a / 2, 1e7, 1e12, 1e20, -a, 35786e3, -a * (1 - f), 1e-3 * a, -a * 0.999});
     run("geofwd", {hx(a), hx(f), hx(lat), hx(lon), hx(h)});
+    stratum(std::string("fwd-") + (std::fabs(lat) == 90 ? "pole" : lat == 0 ? "equator" : "generic"));
     // reverse: over ~40 orders of magnitude, dense on the singular sets
-    double X, Y, Z; int k = r.irange(0, 11);
+    double X, Y, Z; int k = r.irange(0, 14);
     double R0 = a * std::fabs(e2);
     auto dirx = [&](double R, double z) { double t = r.range(-M_PI, M_PI); X = R * std::cos(t); Y = R * std::sin(t); Z = z; if (r.irange(0, 3) == 0) { X = R; Y = 0; } };
     switch (k) {
     case 0: { double m = std::pow(10.0, r.range(-20, 20)); X = m * r.range(-1, 1); Y = m * r.range(-1, 1); Z = m * r.range(-1, 1); break; }
-    case 1: X = Y = 0; Z = r.pick(std::vector<double>{0.0, 1.0, -1.0, a, -a * (1 - f), 1e-300, a * e2, -a * e2 / (1 - f), a * std::fabs(e2) / (1 - f)}) * (r.coin() ? 1 : r.range(0.5, 1.5)); break;   // axis
-    case 2: dirx(std::pow(10.0, r.range(-10, 8)), 0.0); break;                                      // equatorial plane
-    case 3: dirx(R0 * r.range(0, 1), r.pick(std::vector<double>{0.0, 1e-300, -1e-300, 1e-9, 1e-6, 1e-3, 1.0, -1.0, 5e-324})); break;   // inside the singular disc
-    case 4: { double Rr = R0; int d = r.irange(-40, 40); Rr = d > 0 ? nextup(Rr, d) : nextdn(Rr, -d); dirx(Rr, r.irange(0, 2) ? 0.0 : r.range(-1e-6, 1e-6)); if (r.coin()) { X = Rr; Y = 0; } break; }   // the rim
-    case 5: dirx(R0 * r.range(0.9, 1.1), r.range(-1, 1) * std::pow(10.0, r.range(-12, 0))); break;
-    case 6: { double m = std::pow(10.0, r.range(20, 300)); X = m * r.range(-1, 1); Y = m * r.range(-1, 1); Z = m * r.range(-1, 1); break; }    // astronomically far, _maxrad switch
-    case 7: { double m = 2 * a / 2.2e-16 * r.range(0.5, 2); X = m; Y = 0; Z = m * r.range(-1, 1); break; }
-    case 8: { double zz = a * std::fabs(e2) / (1 - f); int d = r.irange(-40, 40); zz = d > 0 ? nextup(zz, d) : nextdn(zz, -d); X = Y = 0; Z = r.coin() ? zz : -zz; if (r.coin()) { X = r.range(-1e-6, 1e-6); } break; }  // prolate: singular segment end
-    default: { double la = r.range(-90, 90) * Math::degree(), lo = r.range(-180, 180) * Math::degree(), hh = r.range(-1e4, 1e6); double nn = a / std::sqrt(1 - e2 * std::sin(la) * std::sin(la));
+    case 1: X = Y = 0; Z = r.pick(std::vector<double>{0.0, -0.0, 1.0, -1.0, a, -a * (1 - f), 1e-300, a * e2, -a * e2 / (1 - f), a * std::fabs(e2) / (1 - f)}) * (r.coin() ? 1 : r.range(0.5, 1.5)); if (r.irange(0, 3) == 0) X = -0.0; break;   // axis
+    case 2: dirx(a * std::pow(10.0, r.range(-10, 3)), r.coin() ? 0.0 : -0.0); break;                                      // equatorial plane
+    case 3: dirx(R0 * r.range(0, 1), r.pick(std::vector<double>{0.0, -0.0, 1e-300, -1e-300, 1e-9, 1e-6, 1e-3, 1.0, -1.0, 5e-324, -5e-324}) * (r.coin() ? 1.0 : a / 6.4e6)); break;   // inside the singular disc
+    case 4: { double Rr = R0; int d = r.irange(-40, 40); Rr = d > 0 ? nextup(Rr, d) : nextdn(Rr, -d); dirx(Rr, r.irange(0, 2) ? 0.0 : r.range(-1e-6, 1e-6) * a / 6.4e6); if (r.coin()) { X = Rr; Y = 0; } break; }   // the rim
+    case 5: dirx(R0 * r.range(0.9, 1.1), r.range(-1, 1) * a / 6.4e6 * std::pow(10.0, r.range(-12, 0))); break;
+    case 6: { double m = std::pow(10.0, r.range(20, 308)); X = m * r.range(-1, 1); Y = m * r.range(-1, 1); Z = m * r.range(-1, 1); if (r.irange(0, 9) == 0) { X = r.coin() ? 1.6e308 : -1.7e308; Y = 1.5e308; } break; }    // astronomically far; hypot(X, Y) overflows
+    case 7: { double m = maxrad * r.range(0.5, 2); X = m; Y = 0; Z = m * r.range(-1, 1); break; }                        // around the far-field threshold 2a/eps
+    case 8: { double zz = a * std::fabs(e2) / (1 - f); int d = r.irange(-40, 40); zz = d > 0 ? nextup(zz, d) : nextdn(zz, -d); X = Y = 0; Z = r.coin() ? zz : -zz; if (r.coin()) { X = r.range(-1e-6, 1e-6) * a / 6.4e6; } break; }  // prolate: singular segment end
+    case 9: { double m = maxrad; int d = r.irange(-6, 6); m = d > 0 ? nextup(m, d) : nextdn(m, -d); double t = r.range(-M_PI / 2, M_PI / 2), u = r.range(-M_PI, M_PI);    // |P| = 2a/eps +- ulps
+              X = m * std::cos(t) * std::cos(u); Y = m * std::cos(t) * std::sin(u); Z = m * std::sin(t); if (r.coin()) { X = m; Y = 0; Z = 0; } break; }
+    case 10: { double m = std::pow(10.0, r.range(std::log10(a) + 3, std::log10(maxrad))); double t = r.range(-M_PI / 2, M_PI / 2); X = m * std::cos(t); Y = 0; Z = m * std::sin(t); if (r.coin()) { Y = X; } break; }   // from 1000 a up to the threshold (log-uniform): a light-year and beyond for a >> 1 m
+    case 11: { double s = r.range(0, 1) * std::fabs(e2) * a / std::sqrt(1 - std::fmin(e2, 0.0)), t = r.range(0, M_PI / 2);   // inside the evolute (trigonometric branch): (R/(a e2))^(2/3) + (Z/(a e2/(1-f)))^(2/3) < 1
+               double c3 = std::pow(std::cos(t), 3), s3 = std::pow(std::sin(t), 3), w = r.range(0, 1); dirx(w * std::fabs(e2) * a * c3, (r.coin() ? 1 : -1) * w * std::fabs(e2) * a / (1 - f) * s3); (void)s; break; }
+    case 12: { double la = r.range(-90, 90) * Math::degree(), lo = r.range(-180, 180) * Math::degree(), hh = -a * r.range(0, 1) * std::fmin(1.0, 1 - f); double nn = a / std::sqrt(1 - e2 * std::sin(la) * std::sin(la));   // deep inside
+               X = (nn + hh) * std::cos(la) * std::cos(lo); Y = (nn + hh) * std::cos(la) * std::sin(lo); Z = ((1 - e2) * nn + hh) * std::sin(la); break; }
+    case 13: X = r.pick(std::vector<double>{0.0, -0.0, 5e-324, -5e-324, 1e-310}); Y = r.pick(std::vector<double>{0.0, -0.0, 5e-324, 1e-310}); Z = r.pick(std::vector<double>{0.0, -0.0, 5e-324, -5e-324, a, -a, 1e-310}); break;   // the centre, signed zeros, subnormals
+    default: { double la = r.range(-90, 90) * Math::degree(), lo = r.range(-180, 180) * Math::degree(), hh = r.range(-1e4, 1e6) * a / 6.4e6; double nn = a / std::sqrt(1 - e2 * std::sin(la) * std::sin(la));
                X = (nn + hh) * std::cos(la) * std::cos(lo); Y = (nn + hh) * std::cos(la) * std::sin(lo); Z = ((1 - e2) * nn + hh) * std::sin(la); } }
     run("georev", {hx(a), hx(f), hx(X), hx(Y), hx(Z)});
-    stratum("rev-" + std::to_string(k < 9 ? k : 9));
+    stratum("rev-" + std::to_string(k < 14 ? k : 14) + (f == 0 ? "-sphere" : f < 0 ? "-prolate" : "-oblate"));
     if (i < 3) sample(current_op());
     if (i % 5 == 0) {
       double lat0 = r.range(-90, 90), lon0 = r.range(-180, 180), h0 = r.range(-100, 1e4); if (i % 25 == 0) lat0 = r.pick(std::vector<double>{90, -90, 0});
-      run("locorigin", {hx(lat0), hx(lon0), hx(h0)});
+      run("locorigin", {hx(Constants::WGS84_a()), hx(Constants::WGS84_f()), hx(lat0), hx(lon0), hx(h0)});
       run("locfwd", {hx(lat0), hx(lon0), hx(h0), hx(lat), hx(lon), hx(std::fmin(std::fabs(h), 1e6))});
       run("geoprops", {hx(lat0), hx(lon0), hx(h0), hx(lat), hx(lon), hx(std::fmin(std::fabs(h), 1e6)), hx(r.range(-90, 90)), hx(r.range(-180, 180)), hx(r.range(0, 1e5))});
+      // any ellipsoid, special origins (poles, date line, lon0 outside [-180, 180], signed zeros)
+      double la0 = r.irange(0, 2) ? r.range(-90, 90) : r.pick(lat0s), lo0 = r.irange(0, 2) ? r.range(-180, 180) : r.pick(lon0s), hh0 = r.irange(0, 3) ? r.range(-100, 1e4) * a / 6.4e6 : r.pick(std::vector<double>{0.0, -0.0, -a / 2, 10 * a});
+      double hp = std::fmin(std::fabs(h), 1e6) * a / 6.4e6;
+      run("locorigin", {hx(a), hx(f), hx(la0), hx(lo0), hx(hh0)});
+      run("locfwdm", {hx(a), hx(f), hx(la0), hx(lo0), hx(hh0), hx(r.irange(0, 4) ? lat : la0), hx(r.irange(0, 4) ? lon : lo0), hx(r.irange(0, 4) ? hp : hh0)});
+      stratum(std::string("locfwdm-") + (std::fabs(la0) == 90 ? "polar-origin" : "generic-origin"));
+      double sx = a * std::pow(10.0, r.range(-9, 2)); double lx = sx * r.range(-1, 1), ly = sx * r.range(-1, 1), lz = sx * r.range(-1, 1);
+      switch (r.irange(0, 7)) { case 0: lx = ly = lz = 0; break; case 1: lx = ly = 0; break; case 2: lz = 0; break; case 3: lx = -0.0; ly = 0; lz = 1e-3 * a; break; default: break; }
+      run("locrevm", {hx(a), hx(f), hx(la0), hx(lo0), hx(hh0), hx(lx), hx(ly), hx(lz)});
+      stratum(std::string("locrevm-") + (std::fabs(la0) == 90 ? "polar-origin" : "generic-origin"));
+      run("geoprops", {hx(la0), hx(lo0), hx(hh0), hx(lat), hx(lon), hx(hp), hx(r.range(-90, 90)), hx(r.range(-180, 180)), hx(r.range(0, 1e5) * a / 6.4e6), hx(a), hx(f)});
+      run("locacc", {hx(a), hx(f), hx(r.irange(0, 9) ? la0 : r.pick(std::vector<double>{91, -90.5, NAN})), hx(r.irange(0, 3) ? lo0 : r.pick(std::vector<double>{180, -180, 540, -540, 360, 720.25, -0.0, 1e17})), hx(hh0)});
+      // Rotate / Unrotate with the matrix of a position (a rotation) and with an arbitrary matrix
+      { std::vector<double> M(9); double tx, ty, tz; Geocentric(a, f).Forward(lat, lon, 0, tx, ty, tz, M); if (r.irange(0, 3) == 0) for (auto& m : M) m = r.range(-2, 2);
+        double s = std::pow(10.0, r.range(-5, 8)); Args ar; for (double m : M) ar.push_back(hx(m)); ar.push_back(hx(s * r.range(-1, 1))); ar.push_back(hx(s * r.range(-1, 1))); ar.push_back(hx(r.irange(0, 4) ? s * r.range(-1, 1) : 0.0)); run("georot", ar); }
+    }
+    if (i % 40 == 0) {
+      // CartConvert: values whose short decimal form is exact (multiples of 2^-10)
+      auto q = [&](double lo, double hi) { return std::round(r.range(lo, hi) * 1024) / 1024; };
+      int variant = r.irange(0, 7); bool rev = variant & 2;
+      double la0 = q(-90, 90), lo0 = q(-180, 180), hh0 = q(-100, 5000);
+      double u = rev ? r.range(-1, 1) * 7e6 : q(-90, 90), v = rev ? r.range(-1, 1) * 7e6 : q(-180, 180), w = rev ? r.range(-1, 1) * 7e6 : q(-1000, 100000);
+      auto ee = r.pick(std::vector<std::pair<double, double>>{{6378137, 1 / 298.257223563}, {6378137, 0}, {6.4e6, 0.125}, {6.4e6, -0.125}});
+      run("cartconvert", {std::to_string(variant), hx(ee.first), hx(ee.second), hx(la0), hx(lo0), hx(hh0), std::to_string(r.irange(-1, 12)), hx(u), hx(v), hx(w)});
+      stratum(std::string("cartconvert-") + (variant & 1 ? "local" : "geocentric") + (rev ? "-reverse" : "-forward"));
     }
   }
 }
